@@ -99,6 +99,31 @@ def cases(draw, tier):
             "np_args": draw(st.sampled_from([False, False, False, True]))}
 
 
+@st.composite
+def giant_cases(draw, tier):
+    """Strands of 6,000..16,000 nt with 600..1,700 separated substitutions on order-2/3 graphs whose vertices keep
+    2..3 arcs: the product of candidate counts passes 2**1024 (beyond any float), so every size comparison in the
+    give-up logic runs on astronomically large integers."""
+    k = draw(st.sampled_from([2, 2, 3]))
+    rng = random.Random(draw(st.integers(0, 2 ** 32 - 1)))
+    rows = [rng.choice([7, 11, 13, 14, 3, 5, 6, 9, 10, 12]) for _ in range(4 ** k)]
+    start = rng.randrange(4 ** k)
+    length = draw(st.integers(6000, 9000 if tier == "quick" else 16000))
+    table, v, out = o.succ_table(k), start, []
+    for _ in range(length):
+        j = rng.choice([j for j in range(4) if (rows[v] >> j) & 1])
+        out.append(o.NUC[j])
+        v = table[v][j]
+    pos, step = k + rng.randrange(3), rng.choice([3 * k + 2, 3 * k + 3])
+    while pos < len(out) - 2 * k:
+        out[pos] = rng.choice([c for c in "ACGT" if c != out[pos]])
+        pos += step + rng.randrange(2)
+    return {"graph": {"k": k, "rows": rows, "start": start}, "text": "".join(out), "kind": "giant_damage",
+            "check_len": draw(st.sampled_from([0, 0, 4])), "indel": draw(st.booleans()),
+            "heap": draw(st.sampled_from([1, 1000, 1000, 10 ** 4])), "layout": None,
+            "np_start": False, "np_args": False}
+
+
 def evaluate(case):
     graph = case["graph"]
     rows, k, start = graph["rows"], graph["k"], graph["start"]
@@ -150,6 +175,11 @@ SUBCHECKS = [
              floors={"first_nucleotide_not_an_arc": 200, "kind:last_symbol": 200, "kind:last_window": 200,
                      "kind:length_k": 200, "kind:many_sites": 300, "not_walk": 1500, "k=8": 40, "heap=inf": 60,
                      "product_path_sites>=65": 15}, rule=RULE, timeout=120.0),
+    SubCheck("giant_damage", evaluate, strategy=giant_cases, examples=(48, 480), shards=(16, 16),
+             floors={"kind:giant_damage": 40, "not_walk": 40}, timeout=300.0,
+             rule="Walks of 6,000..9,000 (thorough 16,000) nt on order-2/3 graphs with out-degree 2..3 carrying "
+                  "600..1,700 separated substitutions, so that the product of per-site candidate counts exceeds "
+                  "2**1024; same oracle and budgets as always_returns. Non-trivial: the input is not a walk."),
     SubCheck("fuzz_always_returns", evaluate, fuzz=("C10", (1500, 150000)), shards=(2, 8),
              rule="atheris/libFuzzer campaign: bytes are decoded into (graph from a pool of 64 arc subsets, start "
                   "vertex, string, options) and judged by the same oracle as the Hypothesis sub-check; coverage "
